@@ -311,13 +311,17 @@ End Sem.
 
 (* ---------- Part 2: cases of the correspondence check ---------- *)
 
-(* schedule events.  Hook-driven cases use SW/SR (a writer is advanced to its
-   next hook point; a reader performs a whole Get while every writer is held).
+(* schedule events.  Hook-driven cases use SW/SR/SF (a writer is advanced to its
+   next hook point; a reader performs a whole Get while every writer is held; SF is
+   fault injection: while writer w is held at the "closed" point the driver unlinks
+   its temporary file and releases it, so that os.Rename fails, the deferred clean-up
+   of WriteFile runs and Set returns an error).
    Free-running cases (storms, random kills) use the API-level events
    AStart/ARet/ABeg/AEnd ordered by a global clock. *)
 Inductive sev :=
 | SW (w : N)                 (* advance writer w to its next hook point *)
 | SR (r : N) (u : string)    (* reader r: Get(u) *)
+| SF (w : N)                 (* make the rename of writer w (held at "closed") fail and advance it *)
 | AStart (w : N) | ARet (w : N) (ok : bool)
 | ABeg (r : N) (u : string) | AEnd (r : N).
 
@@ -334,7 +338,7 @@ Record input := mk_input {
 Definition readrec := (N * string * oread)%type.   (* reader, URL, result of Get *)
 
 Record obs := mk_obs {
-  o_points : list N;        (* per SW, in order: hook point reached: 1 created, 2 written, 3 closed,
+  o_points : list N;        (* per SW / SF, in order: hook point reached: 1 created, 2 written, 3 closed,
                                4 returned nil, 5 returned an error, 0 nothing left to do *)
   o_reads : list readrec;   (* in schedule order *)
   o_dir : list (string * string) }.
@@ -369,6 +373,15 @@ Definition macro (i : input) (s : state) (w : N) : list event * N :=
       end
   end.
 
+(* the step of a writer whose rename is made to fail: the error path of WriteFile
+   (deferred Close + os.Remove(temp)), then Set returns the error: point 5.  Only a
+   writer held at "closed" can be treated so; otherwise nothing happens. *)
+Definition macro_fault (s : state) (w : N) : list event * N :=
+  match getN w (s_w s) with
+  | Some wr => match w_pc wr with PClosed => ([EFail w], 5%N) | _ => ([], 0%N) end
+  | None => ([], 0%N)
+  end.
+
 (* a whole Get while every writer is held: open, one read(2) of everything, EOF *)
 Definition read_events (sha : string -> list N) (r : N) (u : string) (s : state) : list event :=
   match getS (key sha u) (s_dir s) with
@@ -400,6 +413,15 @@ Fixpoint mgo (i : input) (s : state) (sched : list sev) : option (list N * list 
       | Some s' =>
           match mgo i s' rest with
           | Some (ps, rs, sf) => Some (snd (macro i s w) :: ps, rs, sf)
+          | None => None
+          end
+      | None => None
+      end
+  | SF w :: rest =>
+      match exec (sha_of (i_sha i)) s (fst (macro_fault s w)) with
+      | Some s' =>
+          match mgo i s' rest with
+          | Some (ps, rs, sf) => Some (snd (macro_fault s w) :: ps, rs, sf)
           | None => None
           end
       | None => None
@@ -508,12 +530,12 @@ Definition mon_step (i : input) (reads : list readrec) (mo : mon * bool) (e : se
 
 (* runs the monitor over the history of the case; hook-driven schedules are read
    as API histories with the observed hook points: the first SW of a writer is
-   the start of its Set, the SW that reports point 4 / 5 its return; SR is a whole read *)
+   the start of its Set, the SW / SF that reports point 4 / 5 its return; SR is a whole read *)
 Fixpoint fresh_go (i : input) (reads : list readrec) (sched : list sev) (pts : list N)
          (mo : mon * bool) : mon * bool :=
   match sched with
   | [] => mo
-  | SW w :: rest =>
+  | SW w :: rest | SF w :: rest =>
       let p := hd 0%N pts in
       let mo1 := if memN w (n_started (fst mo)) then mo else mon_step i reads mo (AStart w) in
       let mo2 := if (p =? 4)%N then mon_step i reads mo1 (ARet w true)
@@ -568,7 +590,7 @@ Definition spec_ok (i : input) (o : obs) : bool :=
 Definition wf (i : input) : bool :=
   negb (i_free i)
   && match mgo i init (i_sched i) with Some _ => true | None => false end
-  && forallb (fun e => match e with SW _ | SR _ _ => true | _ => false end) (i_sched i)
+  && forallb (fun e => match e with SW _ | SR _ _ | SF _ => true | _ => false end) (i_sched i)
   && tmps_ok i.
 
 (* ---------- cases ---------- *)
